@@ -49,7 +49,7 @@ MANIFEST = {
 PKG_V1 = {"pkg/__init__.py": '"""Pkg v1."""\nfrom pkg.a import f\nVALUE = 1\n', "pkg/a.py": 'def f(x, y=1):\n    """Doc f."""\n    return x\ndef gone(): ...\n'}  # (gone: removed in v2, its breakage is located in the OLD tree)
 PKG_V2 = {"pkg/__init__.py": '"""Pkg v2."""\nfrom pkg.a import f\nVALUE = 2\n', "pkg/a.py": 'def f(x):\n    """Doc f."""\n    return x\n'}
 WRITER = "import os\nopen(os.path.join(os.path.dirname(__file__), 'written_at_import.txt'), 'w').close()\n"
-HISTORIES = ["plain", "slash-branch", "detached", "user-worktree", "dirty", "syntax-error-in-old", "absent-in-old", "writes-at-import", "stash", "user-griffe-branches"]
+HISTORIES = ["plain", "slash-branch", "detached", "user-worktree", "dirty", "syntax-error-in-old", "absent-in-old", "writes-at-import", "stash", "user-griffe-branches", "user-worktrees-named-like-refs"]
 OPS = ["load-static", "load-inspect", "load-extension", "load-unknown-ref", "load-slash-branch", "check", "check-base-ref", "load-relative-repo-chdir", "diff-explain-cwd-tmpdir"]
 
 
@@ -100,6 +100,13 @@ def build_repo(history, root):
     if history == "user-worktree":
         _git(["branch", "other", "v1"], repo)
         _git(["worktree", "add", "-q", os.path.join(root, "userwt"), "other"], repo)
+    if history == "user-worktrees-named-like-refs":
+        # the user keeps one directory per branch: linked worktrees whose directory (hence git's administrative entry) is named like the references Griffe is asked for
+        _git(["branch", "feature/x", "v1"], repo)
+        _git(["branch", "other", "v1"], repo)
+        _git(["worktree", "add", "-q", os.path.join(root, "trees", "v1"), "other"], repo)
+        _git(["worktree", "add", "-q", "--detach", os.path.join(root, "trees", "main"), "v1"], repo)
+        _git(["worktree", "add", "-q", "--detach", os.path.join(root, "trees", "feature-x"), "v1"], repo)
     if history == "dirty":
         with open(os.path.join(repo, "pkg/a.py"), "a") as f:
             f.write("# staged change\n")
@@ -312,7 +319,7 @@ def operate(griffe, op, repo, inj):
 
 
 def applicable(history, op):
-    if history == "user-griffe-branches":
+    if history in ("user-griffe-branches", "user-worktrees-named-like-refs"):
         return op in ("load-static", "load-slash-branch", "check", "check-base-ref")
     if op == "check-base-ref":
         return history in ("plain", "dirty", "user-worktree")
